@@ -25,11 +25,13 @@ import MetricsVerif.Driver.Atomics
 import MetricsVerif.Driver.StatsdAgg
 import MetricsVerif.Driver.C15
 import MetricsVerif.Driver.Tcp
+import MetricsVerif.Driver.TcpProd
 
 open MetricsVerif.Driver
 
 structure DState where
   tcp : Option MetricsVerif.Tcp.State := none
+  tcpq : Option TcpProd.St := none
   c15 : C15.St := {}
   localrec : Option LocalRec.DSt := none
   allow : Option MetricsVerif.Allowlist.Sess := none
@@ -110,6 +112,10 @@ def step (st : DState) (line : String) : DState × String :=
   | "tcp" :: args =>
     match Tcp.handle st.tcp args with
     | some (t, o) => ({ st with tcp := t }, o)
+    | none => (st, "bad-op")
+  | "tcpq" :: args =>
+    match TcpProd.handle st.tcpq args with
+    | some (t, o) => ({ st with tcpq := t }, o)
     | none => (st, "bad-op")
   | _ => (st, "bad-op")
 
